@@ -68,6 +68,7 @@ class C09(PropBase):
         txdl = params.get('tx_data_length', 8)
         pre = gen.prefix_len(a, 'tx')
         release = []
+        cnt = rng.randrange(2)
         if rng.random() < 0.25:
             # one frame per rate-limiter window: every frame after the first is parked and released by a later pass - the identifier, the
             # 29-bit flag and the prefix are those of the request it belongs to all the same
@@ -85,7 +86,9 @@ class C09(PropBase):
                 rid += 1
                 ops.append({'op': 'send', 'i': 0, 'id': rid, 'data': gen.rand_payload(rng, n), 'tat': tat})
                 ops.append({'op': 'process', 'i': 0})
-                for o in release:
+                cnt += 1
+                # (every other request only: the one in between finds the window still used up by its predecessor and is parked)
+                for o in release[:cnt % 2]:
                     ops.extend([o, {'op': 'process', 'i': 0}])
                 ops.append({'op': 'stop_sending', 'i': 0})
         # the same emission / functional rule on an ASYMMETRIC address whose two halves use different modes (prefix on one side only,
@@ -100,7 +103,8 @@ class C09(PropBase):
                 rid += 1
                 ops.append({'op': 'send', 'i': 1, 'id': rid, 'data': gen.rand_payload(rng, n), 'tat': tat})
                 ops.append({'op': 'process', 'i': 1})
-                for o in release:
+                cnt += 1
+                for o in release[:cnt % 2]:
                     ops.extend([o, {'op': 'process', 'i': 1}])
                 ops.append({'op': 'stop_sending', 'i': 1})
         # a reception with foreign frames interleaved
